@@ -412,12 +412,14 @@ LEVEL_TEXT = ("Lean 4 theorems about an executable model of the hourly clock nor
               "The algorithm the source actually runs (flat indices, sorted operations, fence-post slices, an iterator of interpolated values) is "
               "transcribed literally (EEM.Model.DstSrc) and PROVED equal to the per-day model for every frame of whole days "
               "(C06_src_transform_is_per_day; exclusions: a repeated 23:00 on the last day, where the source raises, and a repeated 23:00 directly "
-              "followed by a skipped 00:00, shown to be a real exclusion); the transcription is run against the real function on arbitrary index lists.")
+              "followed by a skipped 00:00, shown to be a real exclusion); the transcription is run against the real function on arbitrary index lists, and the statements of "
+              "_get_dst_indices/_transform_dst it was made from are re-extracted from the source on every run (Gen/DstStatements) and proved "
+              "equal to the frozen ones.")
 LEVEL_NOTE = ("Trusted: Lean kernel + standard axioms; hand models validated by T2 only; the tz database (pytz/zoneinfo); 'hourly "
               "predictions are finite' depends on ElasticNet output and is observed by the oracle only; positional assignment of the "
               "prediction array onto the frame (pandas) is what turns the length theorem into one-row-per-timestamp.")
 TECHNIQUE = ("Lean 4 proof (list lemmas over an executable per-day model, any number of days/transitions; refinement proof that the literal "
-             "transcription of _transform_dst - sorted flat operations, fence-post slices - equals the per-day model) + zone x transition and "
-             "function-level differential correspondence")
+             "transcription of _transform_dst - sorted flat operations, fence-post slices - equals the per-day model) + statement table regenerated from the source + zone x transition "
+             "and function-level differential correspondence")
 ASSUMPTIONS = ["every row's clock hour is a whole hour of the local day (30-minute zones produce 24-row days and no correction)",
                "daily: index labels unique and time-sorted; routing uniqueness is C13's theorem"]
